@@ -297,9 +297,15 @@ func (c *fakeClient) FilterLogs(ctx context.Context, q ethereum.FilterQuery) ([]
 					continue
 				}
 			}
+			bh := c.header(k).Hash()
+			if l.R && idx%2 == 0 {
+				// a removed log belongs to a block that has been reorganised away: it carries that block's hash, not the canonical one
+				// (every other removed log keeps the canonical hash: a node may also report the log of a re-included transaction)
+				bh[0] ^= 0xa5
+			}
 			logs = append(logs, types.Log{
 				Address: a, Topics: []common.Hash{topicOf(l.T)}, Data: []byte{byte(idx)},
-				BlockNumber: k, BlockHash: c.header(k).Hash(), Index: uint(idx), TxIndex: uint(idx / 2), Removed: l.R, // two logs per transaction: several watched contracts log in one transaction
+				BlockNumber: k, BlockHash: bh, Index: uint(idx), TxIndex: uint(idx / 2), Removed: l.R, // two logs per transaction: several watched contracts log in one transaction
 			})
 		}
 		if k == ^uint64(0) {
